@@ -104,10 +104,11 @@ func run(c *vf.Ctx) {
 		if i%2 == 0 {
 			maxTx = 1 // one tx per block: the graph is audited after every transaction
 		}
-		h := hist.GenP(rng, seed, blocks*(4-maxTx), maxTx, hist.Profile{FailBoost: i%3 == 2})
-		if maxTx > 1 {
-			h.Blocks = h.Blocks[:blocks]
+		nb := blocks
+		if maxTx == 1 {
+			nb = blocks * 3
 		}
+		h := hist.GenP(rng, seed, nb, maxTx, hist.Profile{FailBoost: i%3 == 2})
 		m := &mon{c: c, seed: seed, h: h, first: i == 0}
 		ch, err := hist.Play(h, hist.PlayOpts{Monitors: []hist.Monitor{m}, RestartAt: map[int]bool{len(h.Blocks) / 2: true}})
 		if ch != nil {
